@@ -80,6 +80,7 @@ class Array:
         #self._arrayinfo = self._read_arraydescr()
         self._memmap = None
         self._valuesfd = None
+        self._nusers = 0
         self._check_arrayinfoconsistency()
         with self._open_array() as (ar, _):
             self._dtype = ar.dtype
@@ -203,37 +204,52 @@ class Array:
                                       makebinary=False)
         filemode = check_accessmode(accessmode, validmodes=('r', 'r+'),
                                     makebinary=True)
+        # The memory map and file object are shared by all nested or
+        # interleaved users (e.g. iterchunks generators, open_array contexts).
+        # We count users so that they are closed by the last user that
+        # finishes, not by the one that happened to open them.
         if self._memmap is not None:
-            yield self._memmap, self._valuesfd
-        else:
+            self._nusers += 1
             try:
-                # we must do it like this instead of providing a filename
-                # to np.mmemap, otherwise accessing temporary dirs on 
-                # windows will fail
-                with open(file=self._datapath, mode=filemode) as fd:
-                    self._valuesfd = fd
-                    d = self._arrayinfo
-                    dtypedescr = arrayinfotodtype(d)
-                    if product(d['shape']) == 0:  # empty file/array
-                        self._memmap = np.zeros(d['shape'], dtype=dtypedescr,
-                                                order=d['arrayorder'])
-                        # in-memory stand-in should respect access mode
-                        self._memmap.flags.writeable = (memmapmode == 'r+')
-                    else:
-                        self._memmap = np.memmap(filename=fd,
-                                                 mode=memmapmode,
-                                                 shape=d['shape'],
-                                                 dtype=dtypedescr,
-                                                 order=d['arrayorder'])
-                    yield self._memmap, self._valuesfd
-            except Exception:
-                raise
+                yield self._memmap, self._valuesfd
             finally:
-                if hasattr(self._memmap, '_mmap'):
-                    self._memmap._mmap.close() # *may need this for Windows*
-                self._valuesfd.close()
-                self._memmap = None
-                self._valuesfd = None
+                self._close_array()
+        else:
+            # we must do it like this instead of providing a filename
+            # to np.mmemap, otherwise accessing temporary dirs on
+            # windows will fail
+            fd = open(file=self._datapath, mode=filemode)
+            try:
+                d = self._arrayinfo
+                dtypedescr = arrayinfotodtype(d)
+                if product(d['shape']) == 0:  # empty file/array
+                    memmap = np.zeros(d['shape'], dtype=dtypedescr,
+                                      order=d['arrayorder'])
+                    # in-memory stand-in should respect access mode
+                    memmap.flags.writeable = (memmapmode == 'r+')
+                else:
+                    memmap = np.memmap(filename=fd, mode=memmapmode,
+                                       shape=d['shape'], dtype=dtypedescr,
+                                       order=d['arrayorder'])
+            except Exception:
+                fd.close()
+                raise
+            self._memmap = memmap
+            self._valuesfd = fd
+            self._nusers = 1
+            try:
+                yield self._memmap, self._valuesfd
+            finally:
+                self._close_array()
+
+    def _close_array(self):
+        self._nusers -= 1
+        if self._nusers == 0:
+            if hasattr(self._memmap, '_mmap'):
+                self._memmap._mmap.close() # *may need this for Windows*
+            self._valuesfd.close()
+            self._memmap = None
+            self._valuesfd = None
 
     @contextmanager
     def open(self, accessmode=None):
